@@ -6,16 +6,17 @@
    (cfg.compress / decode / max = max_msg_size, cfg.K = allowed constant) fed to a
    fresh reader in several segmentations ("runs").  Events are feed_data calls:
      n        number of stream bytes passed in this call (the bytes themselves are
-              cfg.stream[fed+1 .. fed+n]; the harness checks that it fed exactly those)
+              cfg.stream[fed+1 .. fed+n]; the harness feeds exactly those)
      st, en   first / last call of a run
-     msgs     messages newly put on the queue by this call: [t, data, code]
+     msgs     messages read from the queue after this call: [t, data, code, size, wsize]
               (t = opcode; data = payload bytes, text re-encoded as UTF-8, close reason;
                code = close code)
      exc      the queue's exception after the call: 0 none, close code of a
               WebSocketError, 1 = an exception that carries no close code
      retained bytes held by the reader object after the call (all byte containers)
      rpriv    same, computed from _tail/_payload_fragments/_partial (-1 unknown)
-     infl     inflate calls made during this call (uninterpreted codec results)
+     c0, c1   inflate calls (cfg.calls, uninterpreted codec results) made by this run
+              before it started / up to and including this call
      frags, paused   fragment count / protocol paused   (refinement only)
 
    Property clauses (C12):
@@ -29,70 +30,55 @@
      SegmentationDependent   final outcome differs from the group's first run
      RetainedTooMuch / InflateUnbounded   memory bound max_msg_size + K
      InflateInput / CompressedMessageNotInflated   RFC 7692 7.2.2
-   Refinement (drift only): retained, fragment-pause, msg-size.                    *)
+   Refinement (drift only): retained, fragment-pause, msg-size, inflate-crosscheck.
+
+   Deviation mode (cfg.devs = names of rules with an OPEN known finding): a run in which
+   the reference meets a violation of such a rule is not judged beyond that point
+   (`tainted`) and the rule is reported in `used`.  A trace that fails with cfg.devs = {}
+   and passes with the open deviations enabled is exactly that known finding.        *)
 EXTENDS WsFrames, TraceBatch
 
-VARIABLES tid, l, r, tgt, pend, calls, rd, nd, cdel, cfail, sig, first, bad, drift
+VARIABLES tid, l, r, tgt, nd, cdel, cfail, sig, first, tainted, used, bad, drift
 
-tvars == <<tid, l, r, tgt, pend, calls, rd, nd, cdel, cfail, sig, first, bad, drift>>
+tvars == <<tid, l, r, tgt, nd, cdel, cfail, sig, first, tainted, used, bad, drift>>
 
 C(t) == [compress |-> Cfg(t).compress, decode |-> Cfg(t).decode, max |-> Cfg(t).max]
 Strm(t) == Cfg(t).stream
+Devs(t) == {Cfg(t).devs[i] : i \in 1..Len(Cfg(t).devs)}
 
 NoCall == [has |-> FALSE, inp |-> <<>>, ok |-> FALSE, outlen |-> 0, utf8 |-> FALSE, out |-> <<>>]
 None == <<"none">>
 
 TInit ==
     /\ tid \in 1..NTraces
-    /\ l = 0 /\ r = Init0 /\ tgt = 0 /\ pend = FALSE /\ calls = <<>> /\ rd = <<>>
+    /\ l = 0 /\ r = Init0 /\ tgt = 0
     /\ nd = 0 /\ cdel = 0 /\ cfail = 0 /\ sig = <<>> /\ first = None
+    /\ tainted = FALSE /\ used = {}
     /\ bad = "" /\ drift = <<>>
     /\ Verdict(tid, 0, "", <<>>)
 
-Keep(vs) == UNCHANGED vs
-
-AddDrift(d) == IF d # "" /\ Len(drift) < 3 THEN Append(drift, <<l + 1, d>>) ELSE drift
-
-\* ---- a new feed_data call (possibly the first of a run)
-BeginFeed(e) ==
-    LET fresh == e.st
-        t0 == IF fresh THEN 0 ELSE tgt
-        over == t0 + e.n > Len(Strm(tid))
-    IN /\ bad' = IF over THEN "HarnessStreamOverrun" ELSE ""
-       /\ tgt' = t0 + e.n
-       /\ r' = IF fresh THEN Init0 ELSE r
-       /\ calls' = (IF fresh THEN <<>> ELSE calls) \o e.infl
-       /\ nd' = IF fresh THEN 0 ELSE nd
-       /\ cdel' = IF fresh THEN 0 ELSE cdel
-       /\ cfail' = IF fresh THEN 0 ELSE cfail
-       /\ sig' = IF fresh THEN <<>> ELSE sig
-       /\ rd' = <<>>
-       /\ pend' = TRUE
-       /\ UNCHANGED <<tid, l, first, drift>>
-       /\ Verdict(tid, l, bad', drift)
-
-\* ---- the reference consumes one unit of what has been fed
-StepAct(e) ==
-    LET I(k, full) == IF k <= Len(calls) THEN calls[k] ELSE NoCall
-        \* at a point where C12 permits either outcome follow what the code did
-        rej == e.exc = 1009 /\ cfail = 0 /\ cdel + Len(e.msgs) = nd + Len(rd)
-        st == Step(r, Strm(tid), tgt, C(tid), I, rej)
-        b == IF st.out.k = "badinfl" THEN "InflateInput"
-             ELSE IF st.out.k = "noinfl" THEN "CompressedMessageNotInflated" ELSE ""
-    IN /\ r' = st.r
-       /\ rd' = IF st.out.k = "msg" THEN Append(rd, st.out.m) ELSE rd
-       /\ bad' = b
-       /\ UNCHANGED <<tid, l, tgt, pend, calls, nd, cdel, cfail, sig, first, drift>>
-       /\ Verdict(tid, l, b, drift)
+(* The reference consumes everything the call made available.  Result:
+   [r, rd (messages delivered), bad (clause), dev (deviation rule met, "" if none)] *)
+RECURSIVE Run(_, _, _, _, _, _)
+Run(rr, avail, e, cf0, base, rd) ==
+    IF ~CanStep(rr, avail) THEN [r |-> rr, rd |-> rd, bad |-> "", dev |-> ""]
+    ELSE LET I(k, full) == IF e.c0 + k <= e.c1 THEN Cfg(tid).calls[e.c0 + k] ELSE NoCall
+             \* at a point where C12 permits either outcome follow what the code did
+             rej == e.exc = 1009 /\ cf0 = 0 /\ base = Len(rd)
+             st == Step(rr, Strm(tid), avail, C(tid), I, rej)
+         IN IF st.out.k = "badinfl" THEN [r |-> st.r, rd |-> rd, bad |-> "InflateInput", dev |-> ""]
+            ELSE IF st.out.k = "noinfl" THEN [r |-> st.r, rd |-> rd, bad |-> "CompressedMessageNotInflated", dev |-> ""]
+            ELSE IF st.out.k = "fail" /\ st.r.why \in Devs(tid) THEN [r |-> st.r, rd |-> rd, bad |-> "", dev |-> st.r.why]
+            ELSE Run(st.r, avail, e, cf0, base, IF st.out.k = "msg" THEN Append(rd, st.out.m) ELSE rd)
 
 RECURSIVE Common(_, _, _)
 Common(x, y, k) == IF k < Len(x) /\ k < Len(y) /\ x[k + 1] = y[k + 1] THEN Common(x, y, k + 1) ELSE k
 
-Mismatch(cm, e) ==
+Mismatch(cm, rd, rr, e, cf0) ==
     LET k == Common(cm, rd, 0)
-        codeFailed == cfail # 0 \/ e.exc # 0
+        codeFailed == cf0 # 0 \/ e.exc # 0
     IN IF k = Len(cm) THEN (IF codeFailed THEN "FailedTooEarly" ELSE "MessageNotDelivered")
-       ELSE IF k = Len(rd) THEN (IF Failed(r) THEN "Accepted:" \o r.why ELSE "ExtraMessage")
+       ELSE IF k = Len(rd) THEN (IF Failed(rr) THEN "Accepted:" \o rr.why ELSE "ExtraMessage")
        ELSE IF cm[k + 1].t # rd[k + 1].t THEN "WrongMessageType"
        ELSE IF cm[k + 1].code # rd[k + 1].code THEN "WrongCloseValue"
        ELSE "WrongPayload"
@@ -101,53 +87,74 @@ MaxFrags(mx) == IF mx = 0 THEN 0 ELSE IF mx \div 256 > 1024 THEN mx \div 256 ELS
 
 SigOf(ms) == [i \in 1..Len(ms) |-> <<ms[i].t, Len(ms[i].data), ms[i].code>>]
 
-\* ---- the reference has nothing more to do with the bytes fed so far: compare
-FinishFeed(e) ==
+\* ---- one feed_data call
+Feed(e) ==
     LET c == C(tid)
         K == Cfg(tid).K
+        fresh == e.st
+        r0 == IF fresh THEN Init0 ELSE r
+        t0 == IF fresh THEN 0 ELSE tgt
+        nd0 == IF fresh THEN 0 ELSE nd
+        cd0 == IF fresh THEN 0 ELSE cdel
+        cf0 == IF fresh THEN 0 ELSE cfail
+        sig0 == IF fresh THEN <<>> ELSE sig
+        ta0 == IF fresh THEN FALSE ELSE tainted
+        avail == t0 + e.n
+        over == avail > Len(Strm(tid))
+        q == IF ta0 \/ over THEN [r |-> r0, rd |-> <<>>, bad |-> "", dev |-> ""]
+             ELSE Run(r0, avail, e, cf0, cd0 + Len(e.msgs) - nd0, <<>>)
+        ta1 == ta0 \/ q.dev # ""
+        rd == q.rd
+        rr == q.r
         cm == [i \in 1..Len(e.msgs) |-> [t |-> e.msgs[i].t, data |-> e.msgs[i].data, code |-> e.msgs[i].code]]
-        failedBefore == cfail # 0
+        failedBefore == cf0 # 0
         newFail == e.exc # 0 /\ ~failedBefore
-        cf2 == IF newFail THEN e.exc ELSE cfail
-        sig2 == sig \o SigOf(cm)
+        cf2 == IF newFail THEN e.exc ELSE cf0
+        sig2 == sig0 \o SigOf(cm)
         outcome == <<sig2, cf2>>
         clause ==
-            IF failedBefore /\ cm # <<>> THEN "DeliveredAfterError"
-            ELSE IF failedBefore /\ e.exc # cfail THEN "ErrorNotLatched"
-            ELSE IF cm # rd THEN Mismatch(cm, e)
-            ELSE IF newFail /\ ~Failed(r) THEN "SpuriousError"
-            ELSE IF newFail /\ e.exc \notin r.failed THEN "WrongCloseCode"
+            IF over THEN "HarnessStreamOverrun"
+            ELSE IF failedBefore /\ cm # <<>> THEN "DeliveredAfterError"
+            ELSE IF failedBefore /\ e.exc # cf0 THEN "ErrorNotLatched"
+            ELSE IF ta1 THEN ""
+            ELSE IF q.bad # "" THEN q.bad
+            ELSE IF cm # rd THEN Mismatch(cm, rd, rr, e, cf0)
+            ELSE IF newFail /\ ~Failed(rr) THEN "SpuriousError"
+            ELSE IF newFail /\ e.exc \notin rr.failed THEN "WrongCloseCode"
             ELSE IF c.max > 0 /\ e.retained > c.max + K THEN "RetainedTooMuch"
-            ELSE IF c.max > 0 /\ \E i \in 1..Len(e.infl) : e.infl[i].outlen > c.max + K THEN "InflateUnbounded"
-            ELSE IF e.en /\ Failed(r) /\ cf2 = 0 /\ tgt >= r.fend THEN "Accepted:" \o r.why
+            ELSE IF c.max > 0 /\ \E i \in (e.c0 + 1)..e.c1 : Cfg(tid).calls[i].outlen > c.max + K THEN "InflateUnbounded"
+            ELSE IF e.en /\ Failed(rr) /\ cf2 = 0 /\ avail >= rr.fend THEN "Accepted:" \o rr.why
             ELSE IF e.en /\ first # None /\ first # outcome THEN "SegmentationDependent"
             ELSE ""
-        d == IF clause # "" THEN ""
-             ELSE IF e.rpriv >= 0 /\ ~Failed(r) /\ cf2 = 0 /\ e.rpriv # Retained(r, tgt) THEN "retained"
+        d == IF clause # "" \/ ta1 THEN ""
+             ELSE IF e.rpriv >= 0 /\ ~Failed(rr) /\ cf2 = 0 /\ e.rpriv # Retained(rr, avail) THEN "retained"
              ELSE IF MaxFrags(c.max) > 0 /\ e.frags > MaxFrags(c.max) /\ ~e.paused THEN "fragment-pause"
              ELSE IF \E i \in 1..Len(e.msgs) : e.msgs[i].size # e.msgs[i].wsize THEN "msg-size"
+             ELSE IF \E i \in (e.c0 + 1)..e.c1 : ~Cfg(tid).calls[i].xeq THEN "inflate-crosscheck"
              ELSE ""
         l2 == IF clause = "" THEN l + 1 ELSE l
+        dr2 == IF d # "" /\ Len(drift) < 3 THEN Append(drift, <<l + 1, d>>) ELSE drift
+        used2 == IF q.dev # "" THEN used \cup {q.dev} ELSE used
     IN /\ bad' = clause
-       /\ drift' = AddDrift(d)
+       /\ drift' = dr2
        /\ l' = l2
-       /\ pend' = FALSE
-       /\ cdel' = cdel + Len(cm)
-       /\ nd' = nd + Len(rd)
+       /\ r' = rr
+       /\ tgt' = avail
+       /\ cdel' = cd0 + Len(cm)
+       /\ nd' = nd0 + Len(rd)
        /\ cfail' = cf2
        /\ sig' = sig2
-       /\ first' = IF e.en /\ first = None THEN outcome ELSE first
-       /\ UNCHANGED <<tid, r, tgt, calls, rd>>
-       /\ Verdict(tid, l2, clause, IF clause = "" THEN drift'
-                                   ELSE <<e.seg, r.why, r.failed, e.exc>>)
+       /\ tainted' = ta1
+       /\ used' = used2
+       /\ first' = IF e.en /\ first = None /\ ~ta1 THEN outcome ELSE first
+       /\ UNCHANGED tid
+       /\ Verdict(tid, l2, clause, IF clause = "" THEN <<dr2, used2>>
+                                   ELSE <<e.seg, rr.why, rr.failed, e.exc>>)
 
 TNext ==
     /\ bad = ""
     /\ l < NEvents(tid)
-    /\ LET e == Events(tid)[l + 1]
-       IN IF ~pend THEN BeginFeed(e)
-          ELSE IF CanStep(r, tgt) THEN StepAct(e)
-          ELSE FinishFeed(e)
+    /\ Feed(Events(tid)[l + 1])
 
 TSpec == TInit /\ [][TNext]_tvars
 =============================================================================
